@@ -322,9 +322,10 @@ def query_traversal(node, callback, is_table=False, is_target=False, parent_quer
             result = result if result2 is None else result2
             rules.append([condition, result])
         node.rules = rules
-        default = query_traversal(node.default, callback, parent_query=parent_query)
-        if default is not None:
-            node.default = default
+        if node.default is not None:
+            default = query_traversal(node.default, callback, parent_query=parent_query)
+            if default is not None:
+                node.default = default
 
     elif isinstance(node, list):
         array = []
